@@ -12,10 +12,10 @@ import (
 
 func init() {
 	register(&propDef{
-		ID:    "C14",
-		Title: "Serving and reloading concurrently is race free",
-		Run:   runC14,
-		Explanation: "Structural necessary conditions of race freedom, decided on the SSA form of every function of the module: (lockset) each tabled shared field is only touched with its mutex held; (order) the lock-acquisition order graph (locks held locally or possibly held by a caller, goroutine starts carry none) is acyclic; (block) no blocking channel operation in packages dnsserver/db while the reload lock may be held, except the timeout-bounded select of (*db.DB).Reload; (ctxpool) pooled CDB contexts are Reset before they go back to the pool. Not decided: race freedom of state outside the table, liveness; no schedule is ever executed.",
+		ID:          "C14",
+		Title:       "Serving and reloading concurrently is race free",
+		Run:         runC14,
+		Explanation: "Structural necessary conditions of race freedom, decided on the SSA form of every function of the module: (lockset) each tabled shared field is only touched with its mutex held; (order) the lock-acquisition order graph (locks held locally or possibly held by a caller, goroutine starts carry none) is acyclic; (block) no blocking channel operation in packages dnsserver/db while the reload lock may be held, except the timeout-bounded select of (*db.DB).Reload; (ctxpool) pooled CDB contexts are Reset before they go back to the pool; (globals) code reachable from the concurrent roots never writes package-level state without a mutex; (close-atomic) the decision to close a backend and the close are one critical section of DB.l. Not decided: race freedom of state outside the table, liveness; no schedule is ever executed.",
 	})
 }
 
@@ -24,6 +24,8 @@ func runC14(c *Ctx) {
 	c.Floor("C14.lockset", 30)
 	c14OrderAndBlock(c)
 	c14CtxPool(c)
+	c14Globals(c)
+	c14CloseAtomic(c)
 }
 
 // lockClassOf names the class of a mutex from the receiver of a Lock call:
